@@ -85,6 +85,22 @@ fn drop_from_arbitrary_state() {
     }
 }
 
+/// dropping a Counter HANDLE (not a guard) changes nothing: the count stays and the registered task stays registered
+/// (every clone shares one waker slot — a handle that goes away must not take another handle's waiter with it)   [C17]
+#[kani::proof]
+fn dropping_a_handle_changes_nothing() {
+    let (c, count, _capacity, reg) = any_counter();
+    let d = c.clone();
+    drop(d);
+    assert_eq!(c.total(), count);
+    let before = [woken(0), woken(1), woken(2)];
+    c.0.task.wake();
+    match reg {
+        Some(a) => { assert_eq!(woken(a), before[a] + 1); assert_eq!(woken(0) + woken(1) + woken(2), before[0] + before[1] + before[2] + 1); }
+        None => assert_eq!(woken(0) + woken(1) + woken(2), before[0] + before[1] + before[2]),
+    }
+}
+
 /// clones share one count
 #[kani::proof]
 fn clone_shares_count() {
